@@ -162,9 +162,7 @@ func populateDefaultQueryParameters(q url.Values, parameterName string, value an
 		sort.Strings(names)
 		switch {
 		case sm.Style == openapi3.SerializationDeepObject:
-			for _, name := range names {
-				q.Add(parameterName+"["+name+"]", formatDefaultValue(t[name]))
-			}
+			addDeepObjectDefault(q, parameterName, t)
 		case sm.Explode:
 			for _, name := range names {
 				q.Add(name, formatDefaultValue(t[name]))
@@ -174,6 +172,28 @@ func populateDefaultQueryParameters(q url.Values, parameterName string, value an
 		}
 	default:
 		q.Add(parameterName, formatDefaultValue(value))
+	}
+}
+
+// addDeepObjectDefault writes a default in style deepObject: key[name]=value, nested objects as
+// key[name][inner]=value and array members with their indexes, key[name][0]=value.
+func addDeepObjectDefault(q url.Values, key string, value any) {
+	switch t := value.(type) {
+	case map[string]any:
+		names := make([]string, 0, len(t))
+		for name := range t {
+			names = append(names, name)
+		}
+		sort.Strings(names)
+		for _, name := range names {
+			addDeepObjectDefault(q, key+"["+name+"]", t[name])
+		}
+	case []any:
+		for i, item := range t {
+			addDeepObjectDefault(q, key+"["+strconv.Itoa(i)+"]", item)
+		}
+	default:
+		q.Add(key, formatDefaultValue(value))
 	}
 }
 
